@@ -104,6 +104,9 @@ fn main() {
         "package a:b targets c:d/w@1.0.0;\nimport x as \"s\": func(a: u8) -> string;\nlet i = new c:d { x, \"y\": (z).w[\"q\"], ...v, ... };\nexport i.f as g;\n".into(),
         "package a:b;\n/// doc é\ninterface i { use a:b/c@1.0.0.{t as u}; resource r { constructor(a: borrow<r>); m: static func() -> result<_, u8>; } record q { a: tuple<u8, list<option<string>>> } }\nworld w { include a:b/w with { a as b }; import n: interface { f: func(); }; export c:d/e; }\n".into(),
         "package a:b; /* c /* nested é */ */ let x = new e:f@0.2.1-rc.1+b {}; // tail 日本".into(),
+        // regression texts (known_findings.json, fixed): resolution once panicked on a name ending in `-`
+        "package test:comp;\n\ntype x = u32;\ntype x- = string;".into(),
+        "package test:comp;\ninterface i- { }\nlet a- = new c:d- { };\nexport a- as b-;\n".into(),
     ];
     let mut files = vec![]; wac_files(std::path::Path::new("/repo"), &mut files); files.sort();
     for f in files.iter() { if let Ok(s) = std::fs::read_to_string(f) { if s.len() < 4000 { seeds.push(s); } } }
@@ -139,6 +142,14 @@ fn main() {
     }
     // package decoding
     let (mut blobs, mut decoded) = (0u64, 0u64);
+    // regression corpus: byte strings on which a decoder defect was once found (known_findings.json, fixed)
+    let corpus: [&[u8]; 1] = [&[0, 97, 115, 109, 13, 0, 1, 0, 7, 34, 1, 65, 4, 1, 64, 0, 1, 0, 4, 0, 1, 105, 1, 0, 1, 66, 2, 1, 64, 0, 1, 0, 4, 0, 1, 103, 1, 0, 4, 0, 1, 101, 5, 1, 10, 6, 1, 0, 1, 119, 4, 0, 3, 23, 1, 80, 4, 1, 96, 0, 0, 0, 1, 97, 1, 98, 0, 0, 1, 96, 0, 0, 3, 1, 99, 32, 1, 10, 9, 1, 0, 3, 109, 111, 100, 0, 17, 0]];
+    for b in corpus {
+        blobs += 1;
+        if catch_unwind(AssertUnwindSafe(|| { let mut t = Types::default(); Package::from_bytes("x:y", None, b.to_vec(), &mut t).is_ok() })).is_err() {
+            println!("C14-BOUNDED VIOLATION: Package::from_bytes PANICKED on the regression byte string {:?}", b); std::process::exit(1);
+        }
+    }
     for k in 0..4 {
         let good = component(k);
         for m in 0..(per * 20) {
